@@ -37,8 +37,19 @@ def execute(spec):
         got = []        # datagrams that reached the resolver
         back = []       # datagrams that reached requesters
         w.endpoints[RESOLVER] = lambda wd, serial, src, dst, data: got.append((src, data))
+        # requesters' source ports: ordinary ones, and (in two thirds of the histories) a requester that happens to send
+        # from the very port number given with -b, or from port 53 (a resolver with a fixed query-source port)
+        ports = {k: script.src_addr(k)[1] for k in range(1, 6)}
+        if spec["seed"] % 3 == 1:
+            ports[2] = BIND_PORT
+        elif spec["seed"] % 3 == 2:
+            ports[1] = 53
+            ports[3] = BIND_PORT
+
+        def addr(k):
+            return (script.src_addr(k)[0], ports[k])
         for k in range(1, 6):
-            w.endpoints[script.src_addr(k)] = lambda wd, serial, src, dst, data: back.append((dst, data))
+            w.endpoints[addr(k)] = lambda wd, serial, src, dst, data: back.append((dst, data))
         bind_sock = [s for s in w.socks.values() if s.kind == "udp" and s.inst.name == "S" and s.port != 53]
         bind_addr = ("127.0.0.1", bind_sock[0].port) if bind_sock else None
         n = 0
@@ -56,7 +67,7 @@ def execute(spec):
                     labels = long_name(rng, rng.randrange(6, 254))
                 qt = QT[n % len(QT)]
                 q = D.build_query(m["id"], labels, qt, edns=bool(n % 2))
-                w.send(script.src_addr(m["src"]), (W.SERVER_IP, 53), q, "requester")
+                w.send(addr(m["src"]), (W.SERVER_IP, 53), q, "requester")
                 w.run_until(t=w.now + 3000)
                 outs = []
                 for src, data in got:
@@ -79,7 +90,8 @@ def execute(spec):
                 same = False
                 if sends:
                     ip = sends[0]["dst"][0]
-                    to = int(ip.split(".")[3]) if ip.startswith("10.9.2.") and sends[0]["dst"][1] == 5300 + int(ip.split(".")[3]) else 0
+                    to = int(ip.split(".")[3]) if ip.startswith("10.9.2.") and \
+                        sends[0]["dst"][1] == ports.get(int(ip.split(".")[3]), -1) else 0
                     same = sends[0]["data"] == rep
                 res["c20"].append({"e": "Reply", "id": m["id"], "nsent": len(sends), "to": to, "same": same})
         res["stats"]["steps"] = len(res["c20"])
